@@ -63,6 +63,34 @@ Theorem C10_model_is_source_concat : forall (P S : Type) (hs : list (holder P S)
 Proof. exact src_concat_is_model. Qed.
 Print Assumptions C10_model_is_source_concat.
 
+(* load_h5 and save_h5 are translated too, with the h5py / dict plumbing as configured primitives (the list is in
+   harness/src_functions.py C10_LOAD / C10_SAVE and in the harness ASSUMPTIONS); what the translation contributes is
+   the skeleton: the n_thetas attribute, the empty-holder refusal, shared parameters taken from sample 0, one group
+   per enumerate index named str(i), sorted(..., key=int) over the group names, the loop in that order with
+   g[name] and add_theta, the returned holder.
+
+   load_h5 on any file whose private_params group has no two members of the same name (true of every HDF5 file) *)
+Theorem C10_model_is_source_load_h5 : forall (P S : Type) (h5 : file P S),
+  NoDup (map fst (f_groups h5)) ->
+  src_load_h5 P S h5 = (dor h <- load P S h5; Ok (as_obj h)).
+Proof. exact src_load_h5_is_model. Qed.
+Print Assumptions C10_model_is_source_load_h5.
+
+(* save_h5 returns nothing: its translation denotes what has been written (h5w); read back as a file (h5_close:
+   all parts present, members in h5py's name order) it is the model's save, for every object *)
+Theorem C10_model_is_source_save_h5 : forall (P S : Type) (self : pyobj P S),
+  (dor w <- src_save_h5 P S self; h5_close w) = save P S (snd self).
+Proof. exact src_save_h5_is_model. Qed.
+Print Assumptions C10_model_is_source_save_h5.
+
+(* the round trip through the two translated methods is the model's save_load (no side condition: the names
+   save_h5 writes are distinct), so C10_load_save* are theorems about the translated source *)
+Theorem C10_model_is_source_save_load : forall (P S : Type) (self : pyobj P S),
+  (dor w <- src_save_h5 P S self; dor f <- h5_close w; src_load_h5 P S f)
+  = (dor h <- save_load P S (snd self); Ok (as_obj h)).
+Proof. exact src_save_load_is_model. Qed.
+Print Assumptions C10_model_is_source_save_load.
+
 (* ---- persistence ---- *)
 
 (* save then load gives back the same holder: declared size, number, order and value of every
